@@ -123,16 +123,24 @@ func (hm *HashMap) Query(q *query.Query, local, internal bool) (*iterator.Iterat
 }
 
 func (hm *HashMap) queryExecutor(queryIter *iterator.Iterator, q *query.Query, local, internal bool) {
+	// Collect the candidates and release the database lock before locking any
+	// record: writers call Put with the record locked and then wait for the
+	// database lock, so locking records while holding it deadlocks both.
 	hm.dbLock.RLock()
-	defer hm.dbLock.RUnlock()
+	candidates := make([]record.Record, 0, len(hm.db))
+	for key, r := range hm.db {
+		if q.MatchesKey(key) {
+			candidates = append(candidates, r)
+		}
+	}
+	hm.dbLock.RUnlock()
 
 	var err error
 
 mapLoop:
-	for key, record := range hm.db {
+	for _, record := range candidates {
 		record.Lock()
-		if !q.MatchesKey(key) ||
-			!q.MatchesRecord(record) ||
+		if !q.MatchesRecord(record) ||
 			!record.Meta().CheckValidity() ||
 			!record.Meta().CheckPermission(local, internal) {
 
